@@ -484,6 +484,92 @@ def write_then_read_job(job):
     return acc
 
 
+class _RefuseFrom:
+    """From the k-th request of the call on, the inverter answers ILLEGAL DATA ADDRESS for everything touching `rng`
+    (registers this firmware turns out not to have) - reads and writes alike."""
+
+    def __init__(self, inner, sim, k, rng):
+        self.inner, self.sim, self.k, self.rng, self.n = inner, sim, k, rng, 0
+
+    def respond(self, data):
+        if self.n == self.k:
+            self.sim.refused.append(self.rng)
+        self.n += 1
+        return self.inner.respond(data)
+
+    def __getattr__(self, name):
+        return getattr(self.inner, name)
+
+
+DROP_SETTERS = {
+    "eco_charge": (lambda inv: inv.set_operation_mode(98, 40, 80), (47515, 47598)),
+    "eco_discharge": (lambda inv: inv.set_operation_mode(99, 40, 80), (47515, 47598)),
+    "eco_mode": (lambda inv: inv.set_operation_mode(3), (47515, 47598)),
+    "general": (lambda inv: inv.set_operation_mode(0), (47515, 47598)),
+    "peak_shaving": (lambda inv: inv.set_operation_mode(4, 40, 80), (47589, 47598)),
+    "switch": (lambda inv: inv.write_setting("eco_mode_2_switch", 0), (47515, 47598)),
+    "group": (lambda inv: inv.write_setting("eco_mode_1", bytes(8)), (47515, 47522)),
+    "export_limit": (lambda inv: inv.set_grid_export_limit(3000), (47510, 47510)),
+    "dod": (lambda inv: inv.set_ongrid_battery_dod(40), (45356, 45356)),
+}
+
+
+def run_dropped_case(acc: Acc, case):
+    """An unknown setting id is never written.  Here the id BECOMES unknown during the call: the inverter starts refusing the
+    registers (ILLEGAL DATA ADDRESS) at request k of the setter, the library drops the setting from settings() - and from then
+    on it must not transmit a write to it."""
+    acc.case()
+    cfg = dict(case["cfg"])
+    fam = cfg["family"]
+    inv, sim = siminv.build_direct(cfg, default=0)
+    run_sync(inv.read_device_info())
+    fn, rng = DROP_SETTERS[case["setter"]]
+    before = {x.id_: (x.offset, max(1, (x.size_ + 1) // 2)) for x in inv.settings()}
+    siminv.attach_direct(inv, _RefuseFrom(siminv.responder_for(inv, sim), sim, case["k"], rng))
+    n0 = len(sim.log)
+    exc = None
+    try:
+        run_sync(fn(inv))
+    except Exception as ex:
+        exc = ex
+    after = {x.id_ for x in inv.settings()}
+    dropped = sorted(set(before) - after)
+    entries = sim.log[n0:]
+    acc.cls("dropped-during-setter|%d" % len(dropped))
+    if dropped:
+        acc.nontrivial("dropped", fam, cfg["serial"], case["setter"], case["k"])
+    fails = []
+    for sid in dropped:
+        off, cnt = before[sid]
+        # position in the log at which the refusal that made it unknown happened
+        first_refusal = next((i for i, e in enumerate(entries) if e[0] == "X" and e[1] == 3 and off <= e[2] < off + cnt), None)
+        if first_refusal is None:
+            continue
+        for e in entries[first_refusal + 1:]:
+            wreg = e[1] if e[0] == "W" else (e[2] if e[0] == "X" and e[1] in (6, 16) else None)
+            if wreg is not None and off <= wreg < off + cnt:
+                fails.append(("C18|%s|write-to-setting-dropped-as-unknown" % fam,
+                              "%s: the inverter refused the registers of %r (ILLEGAL DATA ADDRESS) at request %d, the library dropped the id from settings(), "
+                              "and then transmitted a write to register %d anyway (call ended with %r)" % (case["setter"], sid, case["k"], wreg, exc), case))
+                break
+    return fails
+
+
+def dropped_job(job):
+    acc = Acc()
+    cfgs = [{"family": "ET", "serial": b"9010KETU000W0000", "rated_power": 10000, "refuse": [], "battery_mode": 1, "tcp": False},
+            {"family": "ET", "serial": b"925KETT000W00001", "rated_power": 25000, "refuse": [], "battery_mode": 1, "tcp": True},
+            {"family": "ET", "serial": b"9010KETU000W0000", "rated_power": 10000, "refuse": ["eco_v2", "peak_shaving"], "battery_mode": 1, "tcp": False},
+            {"family": "ET", "serial": b"95000EHU000W0001", "rated_power": 5000, "refuse": ["peak_shaving"], "battery_mode": 2, "tcp": True}]
+    for cfg in cfgs:
+        for setter in DROP_SETTERS:
+            for k in range(0, 8):
+                case = {"dropped": True, "cfg": cfg, "setter": setter, "k": k}
+                _apply(acc, case, run_dropped_case)
+    acc.sample(case)
+    return acc
+
+
 def _apply(acc, case, fn):
     for key, msg, c in fn(acc, case):
         acc.fail(key, msg, c)
@@ -611,6 +697,7 @@ def hyp_job(job):
 def run(ctx):
     ctx.shard(read_grid_job, [(p, 16, ctx.quick) for p in range(16)], "read-only API x configurations (every call; ids swept), connect/discover end-to-end")
     ctx.shard(setter_job, [(f, ctx.quick) for f in ("ET", "DT", "ES")], "setters: integer ranges around the valid intervals + in-range control calls")
+    ctx.shard(dropped_job, [0], "setters while the inverter starts refusing the setting's registers at request k: an id dropped as unknown is not written afterwards")
     ctx.shard(e2e_concurrent_job, [(p, 16) for p in range(16)], "end-to-end: a read-only call running concurrently with a valid setter on the same object (write frames == the setter's own)")
     ctx.shard(write_then_read_job, [(p, 16) for p in range(16)], "a legitimate write of a small value to every integer setting / via every setter, then read-only calls on the same object")
     ctx.shard(e2e_job, [(p, 16) for p in range(16)], "end-to-end histories: valid setter, then each read-only call over each network fault (retries / reconnects), raw frames classified at the peer")
@@ -619,6 +706,9 @@ def run(ctx):
 
 
 def replay(ctx, case):
+    if case.get("dropped"):
+        _apply(ctx.acc, case, run_dropped_case)
+        return
     if case.get("concurrent"):
         _apply(ctx.acc, case, run_e2e_concurrent)
     elif "reads" in case:
